@@ -40,6 +40,18 @@ func (i *IRCServer) cmdServerNick(s *Session, reply *Replyctx, msg *irc.Message)
 		Reply: uint64(h.Sum64()),
 	}
 
+	if _, ok := i.sessions[id]; ok {
+		// The session id is derived from the nickname which was used to
+		// introduce the pseudo-client, so it is still taken when that
+		// pseudo-client was renamed (SVSNICK) in the meantime.
+		i.sendServices(reply, &irc.Message{
+			Prefix:  i.ServerPrefix,
+			Command: irc.ERR_NICKNAMEINUSE,
+			Params:  []string{"*", msg.Params[0], "Nickname is already in use"},
+		})
+		return
+	}
+
 	// s.LastActivity is the timestamp of the robust.Message which
 	// contains the server_NICK command we’re processing.
 	if err := i.createSessionLocked(id, "", s.LastActivity); err != nil {
